@@ -572,7 +572,7 @@ def _name_keyed_memos(tree: ast.AST):
                 bare.add(ki.id)
             only_named = named - bare
             if only_named:
-                out.append((fn, g, key, sorted(only_named)))
+                out.append((fn, g, ki if isinstance(key, ast.Name) else key, sorted(only_named)))
     return out, n
 
 
@@ -598,7 +598,7 @@ def rule_memo_by_identity(repo: Repo, rep, rule: str = "R16.12") -> None:
             rep.violation(rule, f"{mod.relpath}:{fn.name} records `{norm(key)[:50]}` in `{g}`", f"{mod.name}:{fn.name}|memo-keyed-by-name|{g}",
                           f"`{g}` remembers {ps} by name only (`{norm(key)[:70]}`), while hooks are dispatched on the class object: a second class with the same module and "
                           "qualname is taken for the first, gets no hook of its own and is converted without its Meta key maps (wrong wire keys, decode failures)",
-                          f"{mod.relpath}:{key.lineno}")
+                          f"{mod.relpath}:{getattr(key, 'lineno', fn.lineno)}")
     rep.count(f"{rule}:runtime_modules", n_mod)
     rep.count(f"{rule}:module_level_memos", n_memo)
     rep.require(n_mod >= 6, f"{rule}: only {n_mod} runtime modules analysed (floor 6)")
